@@ -194,7 +194,7 @@ def emit_case(k, case, impl, with_resid=True, n_samples=48, rng=None):
                      f"let rf := id_recovery NumF {fl(nx)} {fl(case['pf'])} {fl(case['pi'])} times field in "
                      f"let impl_field := {fieldlit} in "
                      f"[maxdiff (sample_field field {ijt}) {vals}; maxdiff rf {flist(impl['rf'])}; 0; 0; "
-                     f"lmax NumF 0 (id_residuals NumF {fl(nx)} times impl_field); 0].")
+                     f"lmax NumF 0 (id_residuals NumF {fl(0.01)} {fl(nx)} times impl_field); 0].")
     else:
         sched = case.get("sched")
         pf = flist(sched if sched is not None else [case["pf"]] * len(case["times"]))
@@ -208,7 +208,7 @@ def emit_case(k, case, impl, with_resid=True, n_samples=48, rng=None):
             f"maxdiff (sp_recovery NumF fp {fl(nx)} false times field) {flist(impl['rf'])}; "
             f"maxdiff (sp_recovery NumF fp {fl(nx)} true times field) {flist(impl['rfd'])}; "
             f"fabsdiff (fp_m_i fp) {fl(impl['m_i'])}; "
-            f"lmax NumF 0 (sp_residuals NumF fp {fl(nx)} times pf impl_field); 0] end end.")
+            f"lmax NumF 0 (sp_residuals NumF {fl(0.01)} fp {fl(nx)} times pf impl_field); 0] end end.")
     lines.append(f"Eval vm_compute in case_{k}.")
     return "\n".join(lines)
 
